@@ -128,7 +128,7 @@ pub fn run(ctx: &Ctx) -> i32 {
     let assignments: Vec<[&'static str; 4]> = if th {
         vec![["schnorr", "ed25519", "ecdsa", "ed25519"], ["ssh-ed25519", "mldsa44", "schnorr", "ecdsa"], ["ecdsa", "ssh-ecdsa-p256", "ed25519", "ssh-ed25519"], ["mldsa65", "ssh-dsa", "ssh-ed25519", "schnorr"]]
     } else { vec![["schnorr", "ed25519", "ecdsa", "ed25519"], ["ssh-ed25519", "mldsa44", "ed25519", "schnorr"]] };
-    let bases: Vec<M> = { let mut b = families::plain(if th { 4 } else { 3 }); b.extend(families::nsn().into_iter().take(if th { 10 } else { 2 })); b };
+    let bases: Vec<M> = { let mut b = families::plain(if th { 4 } else { 3 }); b.extend(families::nsn().into_iter().take(if th { 10 } else { 1 })); b };
     let key = bind::key0();
     let mut acc = Acc::new();
     // scheme-level self-check: a signature made with a private key verifies under the matching public key, over 1500 fixed digests per scheme
@@ -171,6 +171,16 @@ pub fn run(ctx: &Ctx) -> i32 {
                     let cid = |s: &str| format!("asg{ai}/base{bi}/signers{signers}/meta{}/{s}", meta as u8);
                     acc.inc("signed_envelopes");
                     acc.nontrivial(&(ai, bi, signers, meta));
+                    // binding, checked with the raw keys and the MODEL's subject digest (not the implementation's own subject()): each plain
+                    // signature object verifies over the digest of the envelope's subject
+                    { let msd = crate::refmodel::ops::subject(m).digest();
+                      if let Ok(objs) = catch(|| e.objects_for_predicate(known_values::SIGNED)) {
+                        let sigs: Vec<bc_components::Signature> = objs.iter().filter_map(|o| o.extract_subject::<bc_components::Signature>().ok()).collect();
+                        for i in 0..3 { if signers >> i & 1 == 1 && !(meta && i == 0) {
+                            acc.inc("verification_checks");
+                            if !sigs.iter().any(|sg| ids[i].pk.verify(sg, &msd)) { acc.viol("C09|binding|signature-not-over-the-subject-digest", format!("no signature object of signer {} verifies, with the raw key, over the digest of the envelope's subject as the specification defines it", ids[i].name), cid("binding"), json!({"envelope": hex::encode(e.to_cbor_data()), "model_subject_digest": hex::encode(msd)})) }
+                        } }
+                      } }
                     check_all(&mut acc, &e, &ids, signers, "plain", &|| cid("asis"), true);
                     // add_signatures / add_signatures_opt = folding add_signature (deterministic schemes only: compare by verdicts)
                     if !meta && signers != 0 {
